@@ -62,6 +62,15 @@ Proof.
 Qed.
 Print Assumptions C06_clipped_append_spec.
 
+(* refinement to a declarative spec: a transaction run alone on the rule V|!V:e1|..|!V:en "@contains
+   needle" with per-transaction exclusions ecol matches exactly the arguments whose value contains
+   the needle and whose name is excluded neither by the rule nor by the transaction.  With
+   C06_exclusion_merge_schedule_independent: the same holds inside every interleaving *)
+Theorem C06_run_alone_outcome_is_the_selection : forall excs needle inp,
+  cc_solo_outcome true (cc_waf_of excs needle) inp = cc_select needle (excs ++ in_ecol inp) (in_args inp).
+Proof. exact cc_solo_outcome_spec. Qed.
+Print Assumptions C06_run_alone_outcome_is_the_selection.
+
 (* F27 (repaired by 9f1a0e9): with the unclipped append of the earlier code there is a schedule of
    two transactions on ARGS|!ARGS:x|!ARGS:y|!ARGS:z after which transaction 0's outcome differs
    from its run-alone outcome, and the shared rule has been written *)
